@@ -2,6 +2,8 @@ package vk
 
 import (
 	"reflect"
+	"runtime"
+	"strings"
 	"unsafe"
 )
 
@@ -26,4 +28,30 @@ func Peek[T any](obj any, field string) (p *T, ok bool) {
 		return nil, false
 	}
 	return (*T)(unsafe.Pointer(f.UnsafeAddr())), true
+}
+
+// StackSite returns the innermost repository frame (pkg.func, no line numbers) of
+// the current goroutine's stack, skipping harness frames; used as a panic site.
+func StackSite() string {
+	buf := make([]byte, 16384)
+	buf = buf[:runtime.Stack(buf, false)]
+	lines := strings.Split(string(buf), "\n")
+	for _, ln := range lines {
+		if !strings.HasPrefix(ln, "github.com/relab/hotstuff/") {
+			continue
+		}
+		if strings.Contains(ln, "/verif/") {
+			continue
+		}
+		fn := ln
+		if i := strings.LastIndex(fn, "("); i > 0 {
+			fn = fn[:i]
+		}
+		fn = strings.TrimPrefix(fn, "github.com/relab/hotstuff/")
+		if strings.HasPrefix(fn, "github.com") {
+			continue
+		}
+		return fn
+	}
+	return "unknown"
 }
